@@ -7,11 +7,35 @@ import ScionTime.Model.Timemath
 import ScionTime.Model.Measurements
 import ScionTime.Proofs.Sort
 import ScionTime.Proofs.MeasSort
+import ScionTime.Gen.Timemath
+import ScionTime.Gen.Measurements
 namespace ScionTime.C02
 open ScionTime.Timemath
 
 /-- `|v| < 2^62` (about 146 years in nanoseconds). -/
 def Small (v : Int64) : Prop := -4611686018427387904 < v.toInt ∧ v.toInt < 4611686018427387904
+
+/-! ### Pins: the literals inside the Go function bodies (regenerated from /repo on every
+run by harness/extract/x_c02c18.go) are the ones the model computes with. -/
+
+/-- `f := (n - 1) / 3` in `timemath.FaultTolerantMidpoint` is the model's index. -/
+theorem C02_pin_ftm_index (s : List Int64) :
+    ftmSorted s =
+      midpoint (s.getD ((s.length - Gen.Timemath.ftmIndexSub.toNat) / Gen.Timemath.ftmIndexDiv.toNat) 0)
+        (s.getD (s.length - 1 - (s.length - Gen.Timemath.ftmIndexSub.toNat) / Gen.Timemath.ftmIndexDiv.toNat) 0) := rfl
+
+/-- the same line in `measurements.FaultTolerantMidpoint` -/
+theorem C02_pin_meas_ftm_index (s : List Measurements.M) :
+    Measurements.ftmSel s =
+      Measurements.midpointM
+        (s.getD ((s.length - Gen.Measurements.ftmIndexSub.toNat) / Gen.Measurements.ftmIndexDiv.toNat) Measurements.zeroM)
+        (s.getD (s.length - 1 - (s.length - Gen.Measurements.ftmIndexSub.toNat) / Gen.Measurements.ftmIndexDiv.toNat)
+          Measurements.zeroM) := rfl
+
+/-- `(y-x)/2` in `Midpoint` / `midpoint`, `n / 2` and `n % 2` in `Median`. -/
+theorem C02_pin_divisors :
+    Gen.Timemath.midpointDiv = 2 ∧ Gen.Measurements.midpointDiv = 2 ∧
+    Gen.Timemath.medianIndexDiv = 2 ∧ Gen.Timemath.medianParityMod = 2 := by decide
 
 /-! ### Sgn, Inv, Midpoint -/
 
@@ -372,6 +396,27 @@ theorem C02_meas_median (ms post : List M) (hn : ms ≠ []) (h : SortedPerm ms p
     have : ¬ (post.length % 2 ≠ 0) := by omega
     simp only [this, if_false]
     exact C02_meas_midTs_between _ _
+
+/-- Permutation invariance for measurements: the combined offset does not depend on the order
+    of the inputs nor on how the sort breaks ties (the timestamp may — see the example at the
+    end of this file). -/
+theorem C02_meas_offset_perm (ms₁ ms₂ post₁ post₂ : List M) (hn : ms₁ ≠ []) (hp : ms₁.Perm ms₂)
+    (h₁ : SortedPerm ms₁ post₁) (h₂ : SortedPerm ms₂ post₂) :
+    ∃ m₁ m₂, Measurements.ftm ms₁ post₁ = .ok m₁ ∧ Measurements.ftm ms₂ post₂ = .ok m₂ ∧
+      m₁.offset = m₂.offset ∧
+    ∃ k₁ k₂, Measurements.median ms₁ post₁ = .ok k₁ ∧ Measurements.median ms₂ post₂ = .ok k₂ ∧
+      k₁.offset = k₂.offset := by
+  have hn₂ : ms₂ ≠ [] := by
+    intro h; rw [h] at hp; exact hn (List.length_eq_zero_iff.mp hp.length_eq)
+  obtain ⟨m₁, e₁, _, o₁, _⟩ := C02_meas_ftm ms₁ post₁ hn h₁
+  obtain ⟨m₂, e₂, _, o₂, _⟩ := C02_meas_ftm ms₂ post₂ hn₂ h₂
+  obtain ⟨k₁, f₁, _, p₁, _⟩ := C02_meas_median ms₁ post₁ hn h₁
+  obtain ⟨k₂, f₂, _, p₂, _⟩ := C02_meas_median ms₂ post₂ hn₂ h₂
+  have hpo : (ms₁.map M.offset).Perm (ms₂.map M.offset) := hp.map _
+  rw [C02_ftm_perm _ _ hpo, o₂] at o₁
+  rw [C02_median_perm _ _ hpo, p₂] at p₁
+  simp only [Option.some.injEq, Prod.mk.injEq] at o₁ p₁
+  exact ⟨m₁, m₂, e₁, e₂, o₁.1.symm, k₁, k₂, f₁, f₂, p₁.1.symm⟩
 
 /-- The model accepts exactly the sorted permutations (anything else the harness hands in as
     the post-call slice is answered `badSort`, which the implementation never prints). -/
